@@ -7,6 +7,13 @@ PY = "/venv/bin/python"
 
 # property id -> (design section, technique, level text, level note)
 BUILT = {
+    "C16": ("§4.16", "exhaustive enumeration of the option lattice (144 vectors) x carrier files through the real "
+            "main(), comparing a presentation-independent parse of the output",
+            "Every combination of colours, format, -o, debug level and -R value is run on every file of the carrier sets "
+            "that reaches a verdict (conforming, one-violation and #define-dense files); verdict and diagnostics must be "
+            "identical, -R CheckDefine may only drop the #define-value diagnostics; inline --cfile/--hfile content must "
+            "equal the on-disk file.",
+            "Trusts the output parser of mc/props/c16.py; files that are fatal at debug 0 are outside the property."),
     "C15": ("§4.15", "exhaustive enumeration of bounded directory trees x argument lists (and .gitignore variants) "
             "through the real main(), against an os.walk-based reference model",
             "Every tree of the alphabet (names with spaces/dots, look-alike suffixes, directories named like sources, "
